@@ -90,6 +90,7 @@ Inductive leafk :=
 | LGrpcStatus (code : N) (msg : str)     (* grpc *status.Error *)
 | LGogoStatus (code : N) (msg : str)     (* gogo *status.statusError *)
 | LTestError                             (* *errorspb.TestError *)
+| LFmtWrapNil (msg : str)                (* *fmt.wrapError whose %w argument was nil: Unwrap() = nil *)
 | LUser (u : uleaf) (msg : str) (tagn : Z) (xs : list str).
 
 Inductive wlayer :=
@@ -187,6 +188,7 @@ Definition leaf_ty (k : leafk) : str * str :=
   | LGrpcStatus _ _ => (lit "google.golang.org/grpc/internal/status", lit "*status.Error")
   | LGogoStatus _ _ => (lit "github.com/gogo/status", lit "*status.statusError")
   | LTestError => (lib "errorspb", lit "*errorspb.TestError")
+  | LFmtWrapNil _ => (lit "fmt", lit "*fmt.wrapError")
   | LUser u _ _ _ => (ut_pkg, uleaf_ty u)
   end.
 
